@@ -84,7 +84,7 @@ pub struct G {
 pub fn time_actions(c: &Chain, o: &HubObs, full: bool) -> Vec<Action> {
     // critical instants: epoch boundary and the release instants of unreleased batches
     let mut crit: Vec<u64> = vec![];
-    crit.push(o.state.last_unbonded_time + o.params.epoch_period);
+    crit.push(o.last_undelegation() + o.params.epoch_period);
     for h in &o.history {
         if !h.released {
             crit.push(h.time + o.params.unbonding_period);
@@ -498,7 +498,7 @@ fn c03_state(o: &HubObs, cx: &mut Cx) {
 }
 
 fn fee_applies(po: &HubObs) -> bool {
-    po.state.bsei_exchange_rate < po.params.er_threshold
+    po.bsei_rate_derived() < po.params.er_threshold
 }
 
 fn c03_step(po: &HubObs, a: &Action, out: &Outcome, qo: &HubObs, cx: &mut Cx) {
@@ -506,8 +506,9 @@ fn c03_step(po: &HubObs, a: &Action, out: &Outcome, qo: &HubObs, cx: &mut Cx) {
         return;
     }
     let bonded = po.delegated > 0 && po.books() > 0;
-    let brate = po.state.bsei_exchange_rate;
-    let srate = po.state.stsei_exchange_rate;
+    // the pre-state rates as C03 defines them (c03_state compares the reported ones with these in every state)
+    let brate = po.bsei_rate_derived();
+    let srate = expected_rate(po.state.total_bond_stsei_amount.u128(), po.st_claims());
     let peg = po.params.peg_recovery_fee;
     let fx = out.fx();
     // zero payment never mints
@@ -526,7 +527,7 @@ fn c03_step(po: &HubObs, a: &Action, out: &Outcome, qo: &HubObs, cx: &mut Cx) {
         let pay = a.funds_of(USEI);
         let minted = qo.tok_bal(BSEI, &u) as i128 - po.tok_bal(BSEI, &u) as i128;
         let dsupply = qo.bsei_supply as i128 - po.bsei_supply as i128;
-        let rate = if bonded { brate } else { po.state.bsei_exchange_rate };
+        let rate = brate;
         let Some(nofee) = div_dec(pay, rate) else { return };
         cx.trigger("c03_bond_mint_checked");
         cx.validated();
@@ -1218,7 +1219,7 @@ fn c09_epoch_step(pre: &Chain, po: &HubObs, a: &Action, out: &Outcome, qo: &HubO
     if !is_unbond || !out.ok() {
         return;
     }
-    let last = po.history.iter().map(|h| h.time).max().unwrap_or(crate::deploy::GENESIS);
+    let last = po.last_undelegation();
     if pre.time > last && pre.time - last > po.params.epoch_period {
         cx.trigger("c09_unbond_after_epoch_checked");
         cx.validated();
@@ -1259,7 +1260,7 @@ fn c09_probe(c: &Chain, o: &HubObs, cx: &mut Cx) {
                 // continue the whole-balance exit to the end
                 let mut o2 = HubObs::new(&cc);
                 if o2.batch.id == bid {
-                    let t = o2.state.last_unbonded_time + o2.params.epoch_period + 1;
+                    let t = o2.last_undelegation() + o2.params.epoch_period + 1;
                     if t > cc.time {
                         cc.advance(t - cc.time);
                     }
